@@ -400,6 +400,14 @@ type enforceCase struct {
 	Source  string   `json:"source"`
 }
 
+// Body0 is the first byte of the body (0 for an empty body).
+func (c enforceCase) Body0() uint8 {
+	if len(c.Body) == 0 {
+		return 0
+	}
+	return c.Body[0]
+}
+
 func sameParse(v1 interface{}, e1 error, v2 interface{}, e2 error) bool {
 	if (e1 == nil) != (e2 == nil) {
 		return false
@@ -465,6 +473,23 @@ func runEnforce(c enforceCase) harness.Result {
 			return harness.Fail("frame %x parsed from a fresh slice gives (%v, %v); parsed from a buffer that held the frame with the correct trailer %04x just before (and was parsed then) it gives (%v, %v)", frame, v, err, ref, vb, errb)
 		}
 		labels = append(labels, "reused-buffer")
+	}
+	// other RTU traffic goes on in the same process between the moment a request is encoded and the moment its reply is checked (a
+	// second client on another line): for a frame that is the echo reply to a write-single request, that request is encoded first,
+	// then an unrelated valid reply is checked, then the case's frame - the verdict must be the one above
+	if !c.Request {
+		if len(c.Body) == 6 && (c.Body[1] == 5 || c.Body[1] == 6) {
+			if q, err := cat.NewRequest(spec.RTU, spec.Req{FC: c.Body[1], Unit: c.Body[0], Addr: uint16(c.Body[2])<<8 | uint16(c.Body[3]), Value: uint16(c.Body[4])<<8 | uint16(c.Body[5])}); err == nil {
+				_ = q.Bytes()
+				labels = append(labels, "echo-of-a-request-encoded-just-before")
+			}
+		}
+		unrelated := spec.EncodeResponse(spec.RTU, spec.Resp{FC: 3, Unit: c.Body0() ^ 0x21, Data: []byte{0x12, 0x34, 0x56, 0x78}})
+		_, _ = packet.ParseRTUResponseWithCRC(unrelated)
+		vi, erri := packet.ParseRTUResponseWithCRC(append([]byte(nil), frame...))
+		if !sameParse(vi, erri, v, err) {
+			return harness.Fail("frame %x gives (%v, %v) on its own and (%v, %v) when the matching request was encoded and another reply (%x) checked just before", frame, v, err, vi, erri, unrelated)
+		}
 	}
 	return harness.Result{NonTrivial: len(c.Body) >= 2, Labels: labels}
 }
